@@ -4,7 +4,9 @@ package main
 import (
 	"bytes"
 	"fmt"
+	"reflect"
 	"runtime"
+	"strings"
 	"sync/atomic"
 
 	"github.com/CrowdStrike/csproto"
@@ -217,6 +219,101 @@ func skipAlphabet() []fieldEnc {
 		}
 	}
 	return out
+}
+
+func packedResultsIndependent(r *ev.Run) {
+	dt := reflect.TypeOf(&csproto.Decoder{})
+	n := 0
+	for i := 0; i < dt.NumMethod(); i++ {
+		m := dt.Method(i)
+		if !strings.HasPrefix(m.Name, "DecodePacked") || m.Type.NumIn() != 1 || m.Type.NumOut() != 2 || m.Type.Out(0).Kind() != reflect.Slice {
+			continue
+		}
+		width := 0 // varint elements
+		switch m.Type.Out(0).Elem().Kind() {
+		case reflect.Float32:
+			width = 4
+		case reflect.Float64:
+			width = 8
+		}
+		if strings.Contains(m.Name, "Fixed32") {
+			width = 4
+		}
+		if strings.Contains(m.Name, "Fixed64") {
+			width = 8
+		}
+		payload := func(count int, first byte) []byte {
+			var p []byte
+			for k := 0; k < count; k++ {
+				if width == 0 {
+					p = append(p, (first+byte(k))&1) // 0/1: valid for every varint kind incl. bool
+				} else {
+					e := make([]byte, width)
+					e[0] = first + byte(k)
+					p = append(p, e...)
+				}
+			}
+			return p
+		}
+		p1, p2 := payload(5, 1), payload(2, 0)
+		buf := refwire.AppendBytes(refwire.AppendKey(nil, 1, refwire.Len), p1)
+		second := len(buf)
+		buf = refwire.AppendBytes(refwire.AppendKey(buf, 2, refwire.Len), p2)
+		for _, mode := range []csproto.DecoderMode{csproto.DecoderModeSafe, csproto.DecoderModeFast} {
+			d := csproto.NewDecoder(append([]byte{}, buf...))
+			d.SetMode(mode)
+			call := func() (reflect.Value, string) {
+				if _, _, err := d.DecodeTag(); err != nil {
+					return reflect.Value{}, "DecodeTag: " + err.Error()
+				}
+				out := m.Func.Call([]reflect.Value{reflect.ValueOf(d)})
+				if !out[1].IsNil() {
+					return reflect.Value{}, fmt.Sprint(out[1].Interface())
+				}
+				return out[0], ""
+			}
+			msg := ""
+			func() {
+				defer func() {
+					if p := recover(); p != nil {
+						msg = fmt.Sprintf("panic: %v", p)
+					}
+				}()
+				r1, e1 := call()
+				if e1 != "" || r1.Len() != 5 {
+					msg = fmt.Sprintf("first field: %s (%v)", e1, r1)
+					return
+				}
+				snap := fmt.Sprintf("%v", r1.Interface())
+				r2, e2 := call()
+				if e2 != "" || r2.Len() != 2 {
+					msg = fmt.Sprintf("second field: %s", e2)
+					return
+				}
+				if now := fmt.Sprintf("%v", r1.Interface()); now != snap {
+					msg = fmt.Sprintf("list returned for field 1 changed from %s to %s when field 2 was decoded", snap, now)
+					return
+				}
+				snap2 := fmt.Sprintf("%v", r2.Interface())
+				d.Reset()
+				if _, e3 := call(); e3 != "" {
+					msg = "after Reset: " + e3
+					return
+				}
+				if now := fmt.Sprintf("%v", r2.Interface()); now != snap2 || fmt.Sprintf("%v", r1.Interface()) != snap {
+					msg = "earlier results changed when field 1 was decoded again after Reset"
+				}
+				_ = second
+			}()
+			n++
+			if msg != "" {
+				r.Fail("decode/"+m.Name+"/earlier-result-not-independent", m.Name+"/"+mode.String(), info{Kind: m.Name, Ref: fmt.Sprintf("%x", buf), Mode: mode.String(), Msg: msg})
+			}
+		}
+	}
+	r.Evals(int64(n))
+	r.Nontrivial(int64(n))
+	r.Set("packed_methods_checked_for_result_independence", n/2)
 }
 
 func checkSkipSeq(r *ev.Run, alpha []fieldEnc, seq []int, buf []byte) bool {
@@ -435,6 +532,10 @@ func main() {
 		})
 		r.Set("all_field_numbers", true)
 	}
+
+	// every DecodePacked* method: two packed fields decoded one after the other with the SAME Decoder; the list returned
+	// for the first must still hold its values after the second was decoded (and after Reset + decoding it again)
+	packedResultsIndependent(r)
 
 	// Skip: all sequences of <= L fields over the field alphabet
 	alpha := skipAlphabet()
